@@ -1,6 +1,6 @@
 # check configuration for C05 (loaded by bin/vconfig.py)
 CHECK = {'level': 'exploration',
- 'rule': 'as C04, with an operation mix dominated by calls that must fail: the offending name/item at a generated position of a multi-element argument, '
+ 'rule': 'histories as C04 (engine C05_failed) plus packet-iterator histories as C06 (engine C06_pktitr): as C04, with an operation mix dominated by calls that must fail: the offending name/item at a generated position of a multi-element argument, '
          'duplicate/invalid codes, empty packet, second scalar packet, reserved category, stale loop handle -- stand-alone, from inside a parse-time handler '
          'callback, and while an iterator is open on another managed CIF; after every call the dump of every CIF must equal the model (unchanged by the failed call) '
          'and the following valid calls must behave as the model predicts; non-trivial = a failing call whose offender is not the first element or that ran '
@@ -14,4 +14,10 @@ CHECK = {'level': 'exploration',
  'level_note': 'Trusted: the reference model, dump() through public getters.',
  'engines': [{'src': 'pbt/C05_failed.cpp',
               'quick': {'workers': 8, 'cases': 1500, 'size': 100},
-              'thorough': {'workers': 16, 'cases': 40000, 'size': 100}}]}
+              'thorough': {'workers': 16, 'cases': 40000, 'size': 100}},
+             # calls made through an open packet iterator that must fail (update with a packet naming a foreign item at a generated
+             # position, update/remove without a current packet, second iterator): the C06 state machine checks after close/abort that
+             # the failed call left nothing behind
+             {'src': 'pbt/C06_pktitr.cpp',
+              'quick': {'workers': 4, 'cases': 800, 'size': 100},
+              'thorough': {'workers': 8, 'cases': 20000, 'size': 100}}]}
